@@ -63,7 +63,8 @@ def impl_check(job):
                 x = np.zeros(ns)
                 for s in range(1, ns + 1):
                     x[s2i[sname(s)]] = f(rec["x"][s - 1])
-                dx = np.zeros(ns)
+                # the output array is the caller's: the reported derivative does not depend on what it held before
+                dx = np.full(ns, 7.25)
                 itf.py_calculate_deterministic_derivative(x, dx, 0.0)
                 for s in range(1, ns + 1):
                     if not close(float(dx[s2i[sname(s)]]), f(rec["deriv"][s - 1])):
